@@ -589,10 +589,15 @@ def case_loadcases(rep):
         rng = rng_for(run.seed, "C08", "loadcases", rep)
         attach_monitors(run)
         try:
-            for dim, offset in ((3, False), (2, False), (3, True), (2, True)):
+            for dim, offset in ((3, False), (2, False), (3, True), (2, True), (3, "centred"), (2, "centred")):
                 # offset: a body away from the origin (end faces = outermost positions of the points); the symmetry planes of the load
                 # cases sit at the origin (one-line summaries of the functions), so those runs use sym=False / explicit plane positions
                 o = rng.uniform(0.5, 2.0, dim) * rng.choice([-1.0, 1.0], dim) if offset else np.zeros(dim)
+                if offset == "centred":
+                    # a body centred at the origin: explicit plane positions equal to 0.0 are interior grid planes (a position of
+                    # zero is a position, not "not given")
+                    o = -0.5 * np.array([2.0, 3.0, 1.0])[:dim]
+                    run.units["loadcase:explicit-zero-positions"] += 1
                 if dim == 3:
                     mesh = fem.Cube(a=tuple(o), b=tuple(o + np.array([2.0, 3.0, 1.0])), n=(3, 4, 3))
                     if rep % 2:
@@ -704,7 +709,7 @@ SPEC = {
     "required_units": ["partition:disjoint", "partition:cover", "partition:dof0", "boundary:selection", "apply:alignment", "values", "values:column-major-storage", "container+",
                        "container-", "container+=", "container-=", "container+list", "getitem", "single-entry-assembly",
                        "solve.partition", "points-without-cells", "fields:2", "fields:3", "loadcase:symmetry",
-                       "loadcase:uniaxial", "loadcase:biaxial", "loadcase:shear", "loadcase:uniaxial:values", "loadcase:mixed-container", "loadcase:offset-body"]
+                       "loadcase:uniaxial", "loadcase:biaxial", "loadcase:shear", "loadcase:uniaxial:values", "loadcase:mixed-container", "loadcase:offset-body", "loadcase:explicit-zero-positions"]
     + ["feature:" + s for s in ("float", "callable", "and", "skip", "pointmask", "dofmask", "array-dim", "array-full", "or2", "three", "array-skip", "mask-skip", "dofmask-skip", "update", "short-skip")],
     "rule": ("7 container kinds (1..3 fields, constant/linear/disconnected duals, scalar+vector, points without cells) x random "
              "dictionaries of 1..4 possibly overlapping boundaries (coordinate floats/callables, and/or, skip tuples, point and dof "
